@@ -203,3 +203,32 @@ Fixpoint run_canon (fuel : nat) (c : cfg) (s : st) : st :=
                 end
       end
   end.
+
+(* the schedule that [run_canon] executes *)
+Fixpoint first_enabled_act (c : cfg) (s : st) (ls : list nat) : option (act * st) :=
+  match ls with
+  | [] => None
+  | l :: r => match step_loop c s l AltQueue with
+              | Some s' => Some (ALoop l AltQueue, s')
+              | None => match step_loop c s l AltDone with
+                        | Some s' => Some (ALoop l AltDone, s')
+                        | None => first_enabled_act c s r
+                        end
+              end
+  end.
+
+Fixpoint canon_sched (fuel : nat) (c : cfg) (s : st) : list act :=
+  match fuel with
+  | O => []
+  | S f =>
+      match first_enabled_act c s (seq 0 (length (loops s))) with
+      | Some (a, s') => a :: canon_sched f c s'
+      | None => match step c s AExt with
+                | Some s' => AExt :: canon_sched f c s'
+                | None => match step c s APush with
+                          | Some s' => APush :: canon_sched f c s'
+                          | None => []
+                          end
+                end
+      end
+  end.
